@@ -372,7 +372,8 @@ func pFletcher(a []string) string {
 
 // every reported directory: inside the image, declared count, length, each field = bits of its
 // record, re-read of the reported range gives the same table, checksum = Fletcher after 8 bytes
-// (the last only when the generator built the checksums, a[2] == "1").
+// (the last only for the directories the generator laid out with a correct checksum: a[2] is the
+// comma-separated list of their offsets, "-" when there is none).
 func pReparse(a []string) string {
 	img := UnH(a[1])
 	fw, err := fwOf(a[0], img)
@@ -380,7 +381,12 @@ func pReparse(a []string) string {
 		return "skip"
 	}
 	p := fw.PSPFirmware()
-	sums := a[2] == "1"
+	built := map[uint64]bool{}
+	if a[2] != "-" {
+		for _, o := range strings.Split(a[2], ",") {
+			built[UnN(o)] = true
+		}
+	}
 	nonTrivial := false
 	checkPSP := func(name string, t *manifest.PSPDirectoryTable, off, length uint64) string {
 		if t == nil {
@@ -413,7 +419,7 @@ func pReparse(a []string) string {
 		if l2 != length || showPSPTable(t2) != showPSPTable(t) {
 			return "FAIL " + name + " reparse-differs"
 		}
-		if sums && manifest.CalculatePSPDirectoryCheckSum(raw) != t.Checksum {
+		if built[off] && manifest.CalculatePSPDirectoryCheckSum(raw) != t.Checksum {
 			return "FAIL " + name + " checksum"
 		}
 		if manifest.CalculatePSPDirectoryCheckSum(raw) != refFletcher(raw[8:]) {
@@ -452,7 +458,7 @@ func pReparse(a []string) string {
 		if l2 != length || showBIOSTable(t2) != showBIOSTable(t) {
 			return "FAIL " + name + " reparse-differs"
 		}
-		if sums && manifest.CalculateBiosDirectoryCheckSum(raw) != t.Checksum {
+		if built[off] && manifest.CalculateBiosDirectoryCheckSum(raw) != t.Checksum {
 			return "FAIL " + name + " checksum"
 		}
 		if manifest.CalculateBiosDirectoryCheckSum(raw) != refFletcher(raw[8:]) {
@@ -718,6 +724,30 @@ func mkTable(cookie, extra, total uint32, recs [][]byte) []byte {
 	return b
 }
 
+// falseCookie is a level-1 cookie that does not start a table: followed by junk, by a header
+// whose entry count cannot fit, by another cookie, or by nothing at all. The bytes never contain
+// a second '$'.
+func falseCookie(r *Rng, ck []byte) []byte {
+	d := append([]byte{}, ck...)
+	switch r.Intn(5) {
+	case 0: // bare cookie (the next bytes are whatever follows)
+	case 1: // a few junk bytes
+		d = append(d, filler(r, r.Pick(1, 3, 5, 11))...)
+	case 2: // a full header with an absurd count, then junk
+		d = append(d, filler(r, 4)...)
+		d = append(d, le32(uint32(0x01000000+r.Intn(0x7F000000)))...)
+		d = append(d, filler(r, 4+r.Pick(0, 7, 16, 40, 250))...)
+	case 3: // count one more than the bytes that follow can hold (they belong to the real table)
+		d = append(d, filler(r, 4)...)
+		d = append(d, le32(0x00100000)...)
+		d = append(d, filler(r, 4)...)
+	case 4: // cookie characters cut short, then a full cookie with junk: "$PS$PSP..."
+		d = append(append([]byte{}, ck[:3]...), d...)
+		d = append(d, filler(r, r.Pick(2, 9, 30))...)
+	}
+	return d
+}
+
 type blobRef struct{ off, size int }
 
 type built struct {
@@ -780,6 +810,23 @@ func buildImage(r *Rng) *built {
 		j := r.Intn(i + 1)
 		regs[i], regs[j] = regs[j], regs[i]
 	}
+	// 0..4 false level-1 cookies of either family below every directory; with them the level-1
+	// directories are mostly left to the cookie scan (no usable EFS pointer)
+	nDecoy := r.Pick(0, 0, 0, 1, 2, 2, 3, 4)
+	scanOnly := nDecoy > 0 && r.Chance(4, 5) || r.Chance(1, 10)
+	var decoys [][]byte
+	for i := 0; i < nDecoy; i++ {
+		ck := le32(manifest.PSPDirectoryTableCookie)
+		if r.Chance(2, 5) {
+			ck = le32(manifest.BIOSDirectoryTableCookie)
+		}
+		decoys = append(decoys, falseCookie(r, ck))
+	}
+	front := []*region{}
+	for i, d := range decoys {
+		front = append(front, &region{name: fmt.Sprintf("decoy%d", i), size: len(d)})
+	}
+	regs = append(front, regs...)
 	cur := 1 + r.Intn(40)
 	at := map[string]*region{}
 	for _, g := range regs {
@@ -789,6 +836,9 @@ func buildImage(r *Rng) *built {
 	}
 	total := cur + r.Intn(50)
 	img := filler(r, total)
+	for i, d := range decoys {
+		copy(img[at[fmt.Sprintf("decoy%d", i)].off:], d)
+	}
 	blob := 0
 	nextBlob := func() (uint64, uint32) {
 		g := at[fmt.Sprintf("blob%d", blob)]
@@ -900,7 +950,11 @@ func buildImage(r *Rng) *built {
 		return uint32(off)
 	}
 	pp := ptr(bt.p1)
-	switch r.Intn(8) {
+	pmode := r.Intn(8)
+	if scanOnly {
+		pmode = r.Intn(3)
+	}
+	switch pmode {
 	case 0:
 		pp = 0 // scan fallback
 	case 1:
@@ -923,7 +977,7 @@ func buildImage(r *Rng) *built {
 		binary.LittleEndian.PutUint32(efs[s:], v)
 	}
 	binary.LittleEndian.PutUint32(efs[36:], uint32(r.U64()))
-	if bt.b1 >= 0 && r.Chance(4, 5) {
+	if bt.b1 >= 0 && !scanOnly && r.Chance(4, 5) {
 		binary.LittleEndian.PutUint32(efs[slots[r.Intn(4)]:], uint32(bt.b1))
 	}
 	bt.efsOff = put("efs", efs)
@@ -1164,14 +1218,16 @@ func gen(r *Rng, tier string, emit Emit) {
 			// scan over a buffer holding the table behind filler and decoys
 			pre := filler(rr, rr.Pick(0, 1, 5, 33))
 			scan := append(pre, d...)
-			if rr.Chance(1, 3) {
+			// 0..4 false cookies in front: the running offset of the scan must accumulate every skip
+			{
 				ck := le32(manifest.PSPDirectoryTableCookie)
 				if c.fn == "bios_table" {
 					ck = le32(manifest.BIOSDirectoryTableCookie)
 				}
-				decoy := append(append([]byte{}, ck...), rr.Bytes(rr.Pick(0, 3, 12, 20))...)
-				scan = append(decoy, scan...)
-				if rr.Bool() {
+				for k := rr.Pick(0, 0, 1, 2, 2, 3, 4); k > 0; k-- {
+					scan = append(falseCookie(rr, ck), scan...)
+				}
+				if rr.Chance(1, 6) {
 					scan = append(scan, ck...) // a last cookie with nothing behind it
 				}
 			}
@@ -1193,9 +1249,17 @@ func gen(r *Rng, tier string, emit Emit) {
 		}
 		mp := N(bt.base)
 		img := H(bt.img)
-		sums := "0"
+		sums := "-"
 		if bt.sums {
-			sums = "1"
+			var offs []string
+			for _, o := range []int{bt.p1, bt.p2, bt.b1, bt.b2} {
+				if o >= 0 {
+					offs = append(offs, N(uint64(o)))
+				}
+			}
+			if len(offs) > 0 {
+				sums = strings.Join(offs, ",")
+			}
 		}
 		emit("C", "parsefw", mp, img)
 		emit("P", "p_reparse", mp, img, sums)
@@ -1320,7 +1384,7 @@ func gen(r *Rng, tier string, emit Emit) {
 			copy(img[0x400:], pr.Bytes(64))
 			emit("C", "efs", H(img))
 			emit("C", "parsefw", "img", H(img))
-			emit("P", "p_reparse", "img", H(img), "1")
+			emit("P", "p_reparse", "img", H(img), "100,300")
 			if d >= 0 {
 				emit("C", "extract_psp", "img", H(img), "1", "a")
 				emit("P", "p_extract_patch", "img", H(img), "psp", "1", "0", "0", H(pr.Bytes(64)))
